@@ -9,6 +9,8 @@ def drop_task(m, i):
     m["deps"] = [[a - (a > i), b - (b > i), k] for (a, b, k) in m["deps"] if a != i and b != i]
     for tm in m.get("teams", []):
         tm["targets"] = [x - (x > i) for x in tm["targets"] if x != i]
+        if tm.get("ctor_targets"):
+            tm["ctor_targets"] = [x - (x > i) for x in tm["ctor_targets"] if x != i]
     for wp in m.get("wps", []):
         wp["targets"] = [x - (x > i) for x in wp["targets"] if x != i]
     if m.get("order"):
